@@ -365,6 +365,48 @@ type timingCase struct {
 	// Repeat > 0: the (before, ESC, silence) part is delivered Repeat+1 times
 	// on the same parser before After: every lone ESC must be reported
 	Repeat int `json:"repeat,omitempty"`
+	// Partial > 0: After starts with a multi-byte character; its first
+	// Partial bytes follow the ESC at once (in the same read, or in the next
+	// read without a pause when SplitESC is set), the rest arrives after the
+	// gap. The ESC was promptly followed by further bytes.
+	Partial  int  `json:"bytes_of_the_next_character_that_follow_at_once,omitempty"`
+	SplitESC bool `json:"esc_and_the_partial_character_in_separate_reads,omitempty"`
+}
+
+// evalPartial: ESC promptly followed by the first bytes of a multi-byte
+// character whose remaining bytes arrive after a long pause.
+func evalPartial(tc timingCase) (key, detail, observed, expected string) {
+	before, _ := hex.DecodeString(tc.Before)
+	after, _ := hex.DecodeString(tc.After)
+	first := append(append([]byte(nil), before...), 0x1b)
+	data := append(append([]byte(nil), first...), after...)
+	chunks := []int{len(first) + tc.Partial}
+	if tc.SplitESC {
+		chunks = []int{len(first), tc.Partial}
+	}
+	rd := &parserun.Reader{Data: data, Chunks: chunks}
+	gap := time.Duration(tc.GapMs) * time.Millisecond
+	rd.Gate = func(readNo int, off int) {
+		if off == len(first)+tc.Partial {
+			time.Sleep(gap)
+		}
+	}
+	obs := parserun.Run(rd, true, 30*time.Second)
+	if obs.Hung {
+		return "lifecycle:no-close-within-bound", "parser did not close", "", ""
+	}
+	without := refparse.Decode(data)
+	show := func(ts []refparse.Tok) string {
+		var l []string
+		for _, t := range ts {
+			l = append(l, t.String())
+		}
+		return strings.Join(l, " ")
+	}
+	if !refparse.Match(without, obs.Toks, nil).OK {
+		return "timing:escape-reported-although-bytes-followed-at-once", fmt.Sprintf("ESC followed at once by the first %d byte(s) of a multi-byte character (the rest %d ms later) must not be reported as the Escape key", tc.Partial, tc.GapMs), show(obs.Toks), show(refparse.Expected(without))
+	}
+	return "", "", "", ""
 }
 
 // evalRepeated: several lone ESC keys, each followed by silence, on one parser.
@@ -413,6 +455,9 @@ func evalRepeated(tc timingCase) (key, detail, observed, expected string) {
 func evalTiming(tc timingCase) (key, detail, observed, expected string) {
 	if tc.Repeat > 0 {
 		return evalRepeated(tc)
+	}
+	if tc.Partial > 0 {
+		return evalPartial(tc)
 	}
 	before, _ := hex.DecodeString(tc.Before)
 	after, _ := hex.DecodeString(tc.After)
@@ -488,6 +533,13 @@ func runTimingBatch(w *harness.W, r gen.R, n int) {
 		tc := timingCase{Before: hex.EncodeToString([]byte(befores[r.Intn(len(befores))])), After: hex.EncodeToString([]byte(afters[r.Intn(len(afters))])), GapMs: gap}
 		if i%5 == 4 {
 			tc.GapMs, tc.Repeat = 150+50*r.Intn(3), 1+r.Intn(3)
+		}
+		if i%6 == 3 {
+			ch := []string{"\u00e9", "\u20ac", "\U0001F525z", "\u4f60x"}[r.Intn(4)]
+			tc.After = hex.EncodeToString([]byte(ch))
+			tc.Partial = 1 + r.Intn(len(string([]rune(ch)[0]))-1)
+			tc.GapMs, tc.Repeat = 60+30*r.Intn(3), 0
+			tc.SplitESC = r.Intn(2) == 0
 		}
 		cases = append(cases, tc)
 	}
